@@ -33,7 +33,7 @@ def scratch(k):
 
 def props_for(patch_text, own):
     files = re.findall(r"^\+\+\+ b/(\S+)", patch_text, re.M)
-    out = [own]
+    out = [own] if own != "C04" else []          # C04 is not_applicable: no check of its own
     for f in files:
         for pre, ps in BY_FILE:
             if f.startswith(pre):
